@@ -242,6 +242,13 @@ def targets(ctx):
         # empty elements of non-packed repeated fields / empty map values, at field numbers below and above 15
         {"msg": "Repeats", "tree": {"r_string": ["", "a", ""], "r_bytes": [b""], "r_leaf": [{}, {"i": 1}, {}], "r_empty": [{}, {}]}},
         {"msg": "Repeats", "tree": {"r_leaf": [{}], "r_ts": [0], "r_dur": [0, 1]}},
+        # values at which an encoded length changes: zig-zag boundaries of the sint kinds, 7k-bit boundaries of the others
+        {"msg": "Scalars", "tree": {"f_sint32": -64, "f_sint64": -8192, "f_int32": 127, "f_uint64": 2**63}},
+        {"msg": "Scalars", "tree": {"f_sint32": -(2**20), "f_sint64": -(2**34), "f_int64": -1, "f_uint32": 2**28}},
+        {"msg": "Optionals", "tree": {"o_sint32": -(2**27), "o_sint64": -(2**62), "o_int32": -1}},
+        {"msg": "Oneofs", "tree": {"b_sint64": -(2**41), "a_int32": 16384}},
+        {"msg": "Wrappers", "tree": {"w_int32": 0, "w_bool": False, "w_double": 0.0, "w_uint64": 0}},
+        {"msg": "Times", "tree": {"ts": -500000, "dur": -500000, "r_ts": [-1, 0], "o_dur": -1}},
         {"msg": "Maps", "tree": {"m_string_leaf": [["", {}]], "m_string_empty": [["k", {}]], "m_int32_rec": [[0, {}]], "m_string_int64": [["", 0]]}},
     ] + ([{"msg": "Repeats", "tree": {"r_fixed64": [7] * 2050}}] if ctx.thorough else []) + [
         {"msg": "Repeats", "tree": {"r_leaf": [{"i": 1}] * 40, "r_string": ["ab"] * 30}, "drop": [18]},
